@@ -37,8 +37,110 @@ model_index_block = Contract(
     ],
 )
 
+LIB_CONTRACTS = [
+    Contract(target="lib:Rng.choice", params={"self": "Rng", "a": "list[int]", "size": "int", "replace": "bool"},
+             returns="nd[int]", modifies=["self"], skip_body=True,
+             requires=["not replace"],
+             raises={"ValueError": "size > len(a)"},
+             ensures=[
+                 "len(result) == size",
+                 # an injective selection from the population
+                 "all(result[p] in a for p in range(len(result)))",
+             ],
+             notes="numpy Generator.choice(a, size, replace=False): size distinct positions of a; ValueError if the "
+                   "population is smaller than size"),
+]
+
+_NF = "len(data_size)"
+_OK = lambda seq, f, j: ("all(0 <= %s[p] < data_size[%s] and all(%s[p] != test_idx[%s][%s][q] "
+                         "for q in range(len(test_idx[%s][%s]))) for p in range(len(%s)))"
+                         % (seq, j, seq, j, f, j, f, seq))
+
+make_train_sets = Contract(
+    target="mokapot.brew.make_train_sets",
+    params={"test_idx": "list[list[nd[int]]]", "subset_max_train": "opt[int]", "data_size": "list[int]",
+            "rng": "Rng"},
+    yields="list[list[int]]",
+    locals={"train_idx": "list[list[int]]", "subset_max_train_per_file": "list[int]"},
+    consts={"chunk_range": ("int", 5000000)},
+    requires=[
+        "len(test_idx) == len(data_size)", "len(data_size) >= 1",
+        # every collection has the same number of folds
+        "all(len(test_idx[j]) == len(test_idx[0]) for j in range(len(test_idx)))",
+        "all(data_size[j] >= 0 for j in range(len(data_size)))",
+        "implies(subset_max_train is not None, subset_max_train >= 0)",
+    ],
+    # known finding (bounded case subset-larger-than-file): the per-file cap can exceed a file's training pool
+    raises={"ValueError": "subset_max_train is not None"},
+    ensures=[
+        "len(yielded) == len(test_idx[0])",
+        "all(len(yielded[f]) == len(data_size) for f in range(len(yielded)))",
+        # the training indices of fold f, file j are rows of file j that are NOT in the held-out fold f
+        "all(%s for f in range(len(yielded)) for j in range(len(data_size)))" % _OK("yielded[f][j]", "f", "j"),
+    ],
+    loops={
+        0: Loop(invariant=[
+            "len(yielded) == _k0",
+            "all(len(yielded[f]) == len(data_size) for f in range(_k0))",
+            "all(%s for f in range(_k0) for j in range(len(data_size)))" % _OK("yielded[f][j]", "f", "j"),
+            "implies(subset_max_train is None, len(subset_max_train_per_file) == 0)",
+            "implies(subset_max_train is not None, len(subset_max_train_per_file) == len(data_size))",
+        ]),
+        1: Loop(invariant=[
+            "len(train_idx) == len(data_size)",
+            "all(%s for j in range(_k1))" % _OK("train_idx[j]", "_k0", "j"),
+            "all(len(train_idx[j]) == 0 for j in range(_k1, len(data_size)))",
+        ]),
+        2: Loop(invariant=[
+            "len(train_idx) == len(data_size)", "0 <= k <= ds", "ds == data_size[file_idx]",
+            "all(%s for j in range(_k1))" % _OK("train_idx[j]", "_k0", "j"),
+            "all(len(train_idx[j]) == 0 for j in range(_k1 + 1, len(data_size)))",
+            "all(0 <= train_idx[file_idx][p] < k and all(train_idx[file_idx][p] != idx[q] for q in range(len(idx))) "
+            "for p in range(len(train_idx[file_idx])))",
+        ]),
+        3: Loop(invariant=[
+            "len(train_idx) == len(data_size)",
+            "all(%s for j in range(len(data_size)))" % _OK("train_idx[j]", "_k0", "j"),
+        ]),
+    },
+    abstract_ok=["LOGGER.info("],
+    replay="harness.c02:make_train_sets_adapter",
+)
+
+fit_model = Contract(
+    target="mokapot.brew._fit_model",
+    params={"train_set": "Frame", "psms": "list[Psms]", "model": "ModelObj", "fold": "int"},
+    returns="tuple[ModelObj,bool]",
+    locals={"train_set": "Frame", "reset": "bool"},
+    global_ghosts=[Ghost("model_fold", "ModelObj -> int")],
+    raises={"RuntimeError": "True"},
+    exit_ghost=["let tag = model.fold"],
+    ensures=[
+        # the returned model is the one that was passed in, tagged with its (1-based) fold number: this tag is what
+        # brew sorts the fitted models by, so that models[i] is the model of test fold i
+        "result[0] == model", "tag == fold + 1",
+    ],
+    abstract_ok=["train_set = _create_psms(", "try:", "LOGGER."],
+)
+
 # PARKED: the last clause (routing) is not discharged within any budget tried (nested file/fold/row quantifiers
 # through flatten + argsort + gather); lengths and index safety are.  Not part of the check until it verifies.
 PARKED = [model_index_block]
-CONTRACTS = []
+CONTRACTS = [make_train_sets, fit_model]
 BOUNDED = {"module": "harness.c02"}
+
+MUTANTS = [
+    {"name": "test-fold-not-removed", "target": "mokapot.brew.make_train_sets",
+     "find": "            train_idx[file_idx] += list(set(range(k, ds)) - set(idx))",
+     "replace": "            train_idx[file_idx] += list(set(range(k, ds)))"},
+    {"name": "cap-samples-from-another-file", "target": "mokapot.brew.make_train_sets",
+     "find": "                        train_idx[i], current_subset_max_train, replace=False",
+     "replace": "                        train_idx[0], current_subset_max_train, replace=False"},
+    {"name": "other-fold-removed", "target": "mokapot.brew.make_train_sets",
+     "find": "    for fold_idx in zip(*test_idx):", "replace": "    for fold_idx in zip(*test_idx[::-1]):"},
+    {"name": "range-beyond-file", "target": "mokapot.brew.make_train_sets",
+     "find": "            train_idx[file_idx] += list(set(range(k, ds)) - set(idx))",
+     "replace": "            train_idx[file_idx] += list(set(range(k, ds + 1)) - set(idx))"},
+    {"name": "fold-tag-zero-based", "target": "mokapot.brew._fit_model",
+     "find": "    model.fold = fold + 1", "replace": "    model.fold = fold"},
+]
